@@ -38,7 +38,7 @@ def main(tier, replay=None):
     lib = core.load_library()
     p = lib.Parser()
     run.rule = ('one observation per day / time / ISO text / date pair / (date, month offset); distinct by input; non-trivial = all')
-    run.assumptions = ['dates from 1 March 1900 (C13 owns the serials before)', 'DAYS with start after end may be the negative '
+    run.assumptions = ['serials only from 1 March 1900 (C13 owns the serials before); YEAR/MONTH/DAY/WEEKDAY of dates also for January and February 1900', 'DAYS with start after end may be the negative '
                        'difference or #NUM!', 'WEEKDAY numbering types of newer Excel versions (11..17) are not exercised as valid',
                        'ISO text is yyyy-mm-ddThh:mm:ss or with a space']
     quick = tier == 'quick'
@@ -50,6 +50,8 @@ def main(tier, replay=None):
              'iso': lambda: dates.iso_obs(p, i['y'], i['mo'], i['d'], i['h'], i['m'], i['s'], i['text'][10]),
              'year': lambda: dates.year_obs(p, i['y'], i['m'], i['d']), 'pair': lambda: dates.pair_obs(p, D(i['a']), D(i['b'])),
              'edate': lambda: dates.edate_obs(p, D(i['a']), i['k']), 'wtype': lambda: dates.wtype_obs(p, i['n'], i['type'])}[k]()
+        if 'calendar' in i:
+            o['in']['calendar'] = 1
         o['id'] = 1
         v = core.validate_obs(run, 'Trace_Date', [o], 'replay')
         core.tally(run, [o], v, 'c14')
@@ -61,6 +63,11 @@ def main(tier, replay=None):
     size = 2500 if quick else 20000
     obs = dates.run_parallel(_days_chunk, [ns[i:i + size] for i in range(0, len(ns), size)])
     run.extra['days_swept'] = len(ns)
+    # January and February 1900: the calendar functions (not the serial scale, which C13 owns) on every day
+    for n in range(2, 61):
+        o = dates.day_obs(p, n)
+        o['in']['calendar'] = 1
+        obs.append(o)
     for h, m, s in itertools.product((0, 1, 11, 12, 13, 23), (0, 1, 30, 59), (0, 1, 59)):
         obs.append(dates.time_obs(p, h, m, s))
     for _ in range(300 if quick else 5000):
